@@ -57,18 +57,6 @@ theorem typedef_fixpoint_complete (le : LoopEnv) (work : List TdEntry) :
       | some c => exact ⟨c, rfl, (h.sound _ _ hg).1⟩
   · intro he; rw [he] at h; exact h
 
-theorem den_cat_ne_typedef {p : Program} {j : Nat} {x : NameOrType} {t : Target} (h : Den p j x t) :
-    t.cat ≠ .typedef := by
-  induction h with
-  | concrete _ _ h3 => exact concrete_ne_typedef h3
-  | typedef _ _ _ ih => exact ih
-  | base h1 => exact (specBase_isBase h1).1
-  | list => simp
-  | set => simp
-  | map => simp
-  | loc _ _ _ ih => exact ih
-  | qual _ _ _ _ _ ih => exact ih
-
 /-- After a successful run, every Type node of every resolved file carries the category of what it
 ultimately denotes (typedef chains followed to the end, across includes; the denotation is unique
 and never `typedef`), is flagged IsTypedef exactly when its written name names a typedef, and has
@@ -308,5 +296,29 @@ theorem dotted_has_no_candidate : ∀ y, ¬ ConstCand dotted 1 [84, 46, 88] y :=
     simp only [Option.some.injEq, Prod.mk.injEq] at h1
     obtain ⟨rfl, rfl⟩ := h1
     simp [splitLastDot] at h2
+
+/-- The outcome does not depend on the order of the definitions: if `p'` is `p` with the typedefs,
+constants, enums, structs, unions, exceptions and services of each file permuted (`ProgPerm`), then
+resolution succeeds on both or on neither, finishes the same files, and stores the same things
+(`TableEquiv`): the same resolved nodes at every type slot, the same bindings at every constant
+slot, the same base-service references, the same `Used` flags, the same Name2Category. Slots identify
+a definition by its name and a member by its position, so this is equality per definition identity.
+(Which error is reported, and whether a fatal crash precedes an error, may depend on the order.) -/
+theorem order_independent {p p' : Program} (hp : ProgPerm p p') (root : Nat) :
+    (∀ tbl, resolve p root = .ok tbl → ∃ tbl', resolve p' root = .ok tbl' ∧ TableEquiv tbl tbl') ∧
+    (∀ tbl', resolve p' root = .ok tbl' → ∃ tbl, resolve p root = .ok tbl ∧ TableEquiv tbl tbl') := by
+  refine ⟨fun tbl h => resolve_perm hp root h, ?_⟩
+  intro tbl' h
+  obtain ⟨tbl, h1, h2⟩ := resolve_perm hp.symm root h
+  exact ⟨tbl, h1, h2.symm⟩
+
+/-- the hypothesis is satisfiable (and non-trivially so: reverse the definitions of `sample`) -/
+example : ProgPerm sample sample :=
+  ⟨rfl, fun i f f' h h' => by
+    rw [h] at h'
+    simp only [Option.some.injEq] at h'
+    subst h'
+    exact ⟨rfl, rfl, List.Perm.refl _, List.Perm.refl _, List.Perm.refl _, List.Perm.refl _, List.Perm.refl _,
+      List.Perm.refl _, List.Perm.refl _⟩⟩
 
 end Props.C05
